@@ -29,6 +29,12 @@ def models(tier):
         for plan in ("ok", "refused", "inprogress") if tier == "thorough" or (always, wait) == (False, 2) else ("ok",):
             out.append(monitors.ScenarioModel(f"persistent-always={always}-wait={wait}-start={plan}", cfg(persistent, always, wait), alpha, MONS,
                                               max_socks=3, start_plan=[plan]))
+    # an established connection that the node ends itself (garbage on the wire, hard write error) is a lost connection like any other
+    for always in (False, True):
+        out.append(monitors.ScenarioModel(f"established-then-closed-by-the-node-always={always}", cfg(True, always, 2),
+                                          [("tick", 1), ("m", 0, "badlen"), ("wrerr", 0), ("m", 0, "dwr"), ("m", 0, "dpr"), ("eof", 0), ("plan", "refused"),
+                                           ("m", 1, "cea_ok"), ("m", 1, "badlen"), ("wrerr", 1), ("m", 1, "dwr")],
+                                          MONS, max_socks=3, start_plan=["ok"], prelude=[("m", 0, "cea_ok")]))
     # a DWR is outstanding when the DPR arrives; the late DWA must not put the connection back into service
     wd = cfg(True, False, 5)
     wd["node"].update({"idle_timeout": 2, "dwa_timeout": 4})
